@@ -1,5 +1,5 @@
 SPECIFICATION Spec
 CONSTRAINT TrackL
-INVARIANTS ExitsNormally OutputsWritten OwnershipProtocol
+INVARIANTS ExitsNormally OutputsWritten OwnershipProtocol LoopOrder
 POSTCONDITION PrintMaxL
 CHECK_DEADLOCK FALSE
